@@ -32,6 +32,18 @@ fn range_edge(lo: u32, hi: u32) -> Vec<u32> {
     v
 }
 
+/// Stride alphabet: the dense range and the edges, plus the values whose product with 2 or 4 entries wraps around
+/// 2^32 to the product of a legal stride (24, 40, 48, 64 + k * 2^30).
+fn strides() -> Vec<u32> {
+    let mut v = range_edge(0, 129);
+    for s in [24u32, 40, 48, 64] {
+        for k in 1..4u32 {
+            v.push(s + (k << 30));
+        }
+    }
+    v
+}
+
 fn elf_img(strtab_base: u64) -> Vec<u8> {
     let mut s = Vec::new();
     let names = [1u32, 7, 15];
@@ -60,7 +72,7 @@ fn bases(strtab_base: u64) -> Vec<Base> {
                 push(kind, 1, bi::enc_module(0x2000, 0x1000, b"mod"), vec![]);
             }
             bi::MMAP => {
-                let f = vec![Field { name: "entry_size", off: 8, width: 4, alpha: range_edge(0, 129) }, Field { name: "entry_version", off: 12, width: 4, alpha: vec![1, 0xFFFF_FFFF] }];
+                let f = vec![Field { name: "entry_size", off: 8, width: 4, alpha: strides() }, Field { name: "entry_version", off: 12, width: 4, alpha: vec![1, 0xFFFF_FFFF] }];
                 push(kind, 0, bi::sample(kind, 1, 0), f.clone());
                 let mut two = bi::sample(kind, 1, 2);
                 wr64(&mut two, 16 + 24, u64::MAX - 5); // base + length overflows: a controlled panic is allowed
@@ -82,7 +94,7 @@ fn bases(strtab_base: u64) -> Vec<Base> {
             bi::ELF => {
                 let f = vec![
                     Field { name: "num", off: 8, width: 4, alpha: range_edge(0, 5) },
-                    Field { name: "entsize", off: 12, width: 4, alpha: range_edge(0, 129) },
+                    Field { name: "entsize", off: 12, width: 4, alpha: strides() },
                     Field { name: "shndx", off: 16, width: 4, alpha: range_edge(0, 5) },
                     Field { name: "type0", off: 20 + 4, width: 4, alpha: ELF_TYPES.to_vec() },
                     Field { name: "type1", off: 20 + 64 + 4, width: 4, alpha: ELF_TYPES.to_vec() },
@@ -96,7 +108,7 @@ fn bases(strtab_base: u64) -> Vec<Base> {
             }
             bi::ACPI2 => push(kind, 0, bi::sample(kind, 1, 0), vec![Field { name: "length", off: 28, width: 4, alpha: range_edge(0, 60) }]),
             bi::EFI_MMAP => {
-                let f = vec![Field { name: "desc_size", off: 8, width: 4, alpha: range_edge(0, 129) }, Field { name: "desc_version", off: 12, width: 4, alpha: { let mut v = vec![0, 2]; v.extend(EDGE32.iter().copied().filter(|e| *e > 2)); v } }];
+                let f = vec![Field { name: "desc_size", off: 8, width: 4, alpha: strides() }, Field { name: "desc_version", off: 12, width: 4, alpha: { let mut v = vec![0, 2]; v.extend(EDGE32.iter().copied().filter(|e| *e > 2)); v } }];
                 push(kind, 0, bi::sample(kind, 1, 2), f.clone());
                 push(kind, 1, bi::sample(kind, 1, 0), f);
             }
@@ -424,7 +436,7 @@ fn run(ctx: &mut Ctx) {
     let budget = if quick { 1 } else { 2 };
     let all = bases(strtab_base);
     // ---------------- tag level
-    ctx.bound("tag_level", format!("22 kinds + custom, 1-3 well-formed variants each; deviation budget {}: tag size 0..=extent+17 + EDGE32, mmap entry_size / EFI desc_size / ELF entsize 0..=129 + EDGE32, EFI desc_version, palette count 0..=cap+3 + {{0xFF, 0x100, 0x101, 0x5555, 0x5556 (3 x count crosses 2^16), 0x7FFF, 0x8000, 0xAAAA, 0xAAAB (3 x count crosses 2^17), 0xFFFE, 0xFFFF}}, framebuffer type byte and VBE memory model all 256 values, RSDPv2 length 0..=60 + EDGE32, ELF num / shndx 0..=5 + EDGE32, raw ELF types; slice = the tag's padded extent, flush-right and flush-left against PROT_NONE guard pages, fills A/B; program = cast + every accessor + Debug, each under catch_unwind", budget));
+    ctx.bound("tag_level", format!("22 kinds + custom, 1-3 well-formed variants each; deviation budget {}: tag size 0..=extent+17 + EDGE32, mmap entry_size / EFI desc_size / ELF entsize 0..=129 + EDGE32 + {{24, 40, 48, 64}} + k * 2^30 (the product with 2 or 4 entries wraps around 2^32), EFI desc_version, palette count 0..=cap+3 + {{0xFF, 0x100, 0x101, 0x5555, 0x5556 (3 x count crosses 2^16), 0x7FFF, 0x8000, 0xAAAA, 0xAAAB (3 x count crosses 2^17), 0xFFFE, 0xFFFF}}, framebuffer type byte and VBE memory model all 256 values, RSDPv2 length 0..=60 + EDGE32, ELF num / shndx 0..=5 + EDGE32, raw ELF types; slice = the tag's padded extent, flush-right and flush-left against PROT_NONE guard pages, fills A/B; program = cast + every accessor + Debug, each under catch_unwind", budget));
     for base in &all {
         enumerate(budget, |ch| {
             let (img, _size, devs) = apply(base, ch);
